@@ -19,6 +19,8 @@ CHECKS = {
     "C08": dict(engine="S", text="regrid_spec / interp / rotate executed on symbolic spectra with the xarray interpolation replaced by a differential-tested 1-D linear contract; z3 proves the output equals the periodic-linear reference bin by bin (exact on nodes, both seam neighbours used), non-negativity, zero above fmax, Hs conservation under maintain_m0, whole-bin rotation == circular shift", ref="6/C08"),
     "C09": dict(engine="S", text="PTM4 with symbolic wind speed (the boundary celerity = wind component is a satisfying assignment, not a sampled accident), bbox with all box limits symbolic, split/PTM5 on listed on- and off-node cutoffs: z3 proves every bin is assigned by the stated rule, partitions are disjoint and sum to the input, overlapping boxes raise", ref="6/C09"),
     "C10": dict(engine="S", text="relational symbolic runs of the real statistics on S and kS (k symbolic for polynomial statistics), on S and S with relabelled directions, plus Cauchy-Schwarz bounds proven as generic lemmas and instantiated on the implementation's outputs, and scale_by_hs with symbolic coefficients and range limits", ref="6/C10"),
+    "C11": dict(engine="S", text="to_swan -> a real file on disk -> read_swan with every energy density a symbolic real that travels through the file as a token under the printf/strtod contract (half a unit of the last printed digit): z3 proves each cell comes back at the position it was written from within half a unit of its block's FACTOR, zero and missing spectra are preserved, for station and lat-lon grid layouts with unequal sizes, chunked and gzip writing; WW3 writer/reader pair through the captured dataset; CF packing parameters of the netCDF writer over a symbolic density", ref="6/C11",
+                note="the text of each number is a contract stub (documented printf/strtod behaviour); Octopus, Funwave and JSON pairs are outside the claim; reals stand in for floats"),
     "C12": dict(engine="S", text="from_ww3/from_ncswan/from_wwm/from_era5/from_ndbc and the read_dataset dispatcher executed on in-memory native datasets with symbolic densities, winds and directional moments: z3 proves every output bin is the unit-converted native bin at its converted physical direction, the variance integrals in native and converted units agree, winds are speed / coming-from direction, missing ERA5 values become 0", ref="6/C12"),
     "C14": dict(engine="S", text="Dataset.spec.sel (nearest, idw, bbox) executed through the public API with symbolic station and query longitudes/latitudes and symbolic tolerance, both longitude conventions independently as preconditions: z3 proves the selected stations are those of the circular-distance / box oracle, weights are 1/d, failures happen exactly beyond the tolerance, longitudes come back in the query's convention", ref="6/C14"),
     "C15": dict(engine="S", text="the real construction functions are executed with symbolic hs, fp, gamma, alpha, gw, mean direction and spread; exp / x**y / cos of symbolic arguments are uninterpreted functions with positivity and range axioms, so z3 proves the Hs-scaling and the unit integral of the spreading function for EVERY positive shape value, non-negativity, jonswap(gamma=1) == pierson_moskowitz, TMA at 5000 m == JONSWAP (depth factor evaluated in floats), and that shape x spreading integrates back to the 1-D shape", ref="6/C15"),
